@@ -11,7 +11,7 @@
 //!
 //! Stages (each a fork pool, one case = one divider phase):
 //!  1. one-step      every state (ALL 65536 phases, both tiers, x TAC 0..7 + "TAC never
-//!                   written" x TIMA{00,01,FE,FF} x TMA{00,7F,FF}) x every action (TAC<-0..7,
+//!                   written" x TIMA{00,01,FE,FF} x TMA{00,7F,FF}) x every action (TAC<-0..7,F9,FC,
 //!                   DIV<-, TIMA<-{00,FF}, TMA<-{00,AB}, elapse d for 19 short d)
 //!  2. tima-all      the same actions with TIMA in all 256 values; thorough: the 20480 phases
 //!                   within +-2 clocks of a falling edge of divider bit 3 (= of any
@@ -967,12 +967,12 @@ pub fn run(tier: &str) -> i32 {
       make_world,
       |w, case, ctx| {
         let phase = s1[case as usize];
-        ctx.sample(|| J::obj().set("stage", J::s("one-step")).set("phase", J::u(phase as u64)).set("states", J::s("TAC 0..7 + never-written x TIMA {00,01,FE,FF} x TMA {00,7F,FF}")).set("actions", J::s("TAC<-0..7, DIV<-, TIMA<-{00,FF}, TMA<-{00,AB}, elapse {0,1,2,3,4,5,8,12,15,16,17,60,64,252,256,260,1020,1024,1028}")));
+        ctx.sample(|| J::obj().set("stage", J::s("one-step")).set("phase", J::u(phase as u64)).set("states", J::s("TAC 0..7 (written with bits 3-7 set where phase bit 2 is set) + never-written x TIMA {00,01,FE,FF} x TMA {00,7F,FF}")).set("actions", J::s("TAC<-0..7,F9,FC, DIV<-, TIMA<-{00,FF}, TMA<-{00,AB}, elapse {0,1,2,3,4,5,8,12,15,16,17,60,64,252,256,260,1020,1024,1028}")));
         one_step(w, ctx, phase, &cfg);
       },
       crash("one-step", &s1),
     );
-    let space = format!("all {} divider phases x (TAC 0..7 + never-written) x TIMA {{00,01,FE,FF}} x TMA {{00,7F,FF}} x {} actions", s1.len(), shorts.len());
+    let space = format!("all {} divider phases x (TAC 0..7, written with bits 3-7 set where phase bit 2 is set, + never-written) x TIMA {{00,01,FE,FF}} x TMA {{00,7F,FF}} x {} actions", s1.len(), shorts.len());
     let c = rep.add_stage("one-step", &space, r);
     add(&c);
   }
@@ -989,13 +989,13 @@ pub fn run(tier: &str) -> i32 {
       make_world,
       |w, case, ctx| {
         let phase = s2[case as usize];
-        ctx.sample(|| J::obj().set("stage", J::s("tima-all")).set("phase", J::u(phase as u64)).set("states", J::s("TAC 0..7 + never-written x TIMA 00..FF x TMA {00,7F,FF}")).set("actions", J::s("as one-step")));
+        ctx.sample(|| J::obj().set("stage", J::s("tima-all")).set("phase", J::u(phase as u64)).set("states", J::s("TAC 0..7 (written with bits 3-7 set where phase bit 2 is set) + never-written x TIMA 00..FF x TMA {00,7F,FF}")).set("actions", J::s("as one-step")));
         one_step(w, ctx, phase, &cfg);
       },
       crash("tima-all", &s2),
     );
     let space = format!(
-      "{} x (TAC 0..7 + never-written) x TIMA all 256 x TMA {{00,7F,FF}} x {} actions",
+      "{} x (TAC 0..7, written with bits 3-7 set where phase bit 2 is set, + never-written) x TIMA all 256 x TMA {{00,7F,FF}} x {} actions",
       if thorough { format!("{} phases within +-2 clocks of a falling edge of divider bit 3 (contains every falling edge of bits 5, 7, 9)", s2.len()) } else { format!("{} phases within +-2 clocks of a falling edge of divider bit 7 (each also an edge of bits 3 and 5, every 4th of bit 9)", s2.len()) },
       shorts.len()
     );
@@ -1018,7 +1018,7 @@ pub fn run(tier: &str) -> i32 {
       },
       crash("long-elapse", &s3),
     );
-    let space = format!("{} phases (64k-1, 64k, 64k+1 for every {} k) x (TAC 0..7 + never-written) x TIMA {{00,01,FE,FF}} x TMA {{00,7F,FF}} x elapse {{4096,65532,65536,65540,131076}}", s3.len(), if thorough { "" } else { "4th" });
+    let space = format!("{} phases (64k-1, 64k, 64k+1 for every {} k) x (TAC 0..7, written with bits 3-7 set where phase bit 2 is set, + never-written) x TIMA {{00,01,FE,FF}} x TMA {{00,7F,FF}} x elapse {{4096,65532,65536,65540,131076}}", s3.len(), if thorough { "" } else { "4th" });
     let c = rep.add_stage("long-elapse", &space, r);
     add(&c);
   }
